@@ -197,7 +197,8 @@ func evalSeam(c seamCase) []viol {
 
 // seamSig: family (enum|long|output) . alphabet class . adapter . failed clause. The script itself is not part of it.
 func seamSig(family, alpha, adapter, clause string) string {
-	if alpha == "" {
+	// a line delivered in pieces is caused by where the chunk boundary falls, whatever the bytes: one class
+	if alpha == "" || clause == "line-split" {
 		return fmt.Sprintf("seam:%s:%s:%s", family, adapter, clause)
 	}
 	return fmt.Sprintf("seam:%s:alphabet=%s:%s:%s", family, alpha, adapter, clause)
@@ -249,11 +250,14 @@ func evalOutput(c seamCase, s []byte) []viol {
 		vs = append(vs, viol{Sig: seamSig("output", "", adapter, clause), Replay: replayCase{Half: "seam", Seam: &c, Want: showLines(want), Got: showLines(got)}})
 	}
 	// the createCommand wiring: what was written to cmd.Stdout reaches Log, what was written to cmd.Stderr LogError
+	okO, okE := true, true
 	if cl := classify(gotO, nonEmptyLines(string(so)), len(so) > 0 && so[len(so)-1] != '\n'); cl != "" {
 		add("stdout", cl, nonEmptyLines(string(so)), gotO)
+		okO = false
 	}
 	if cl := classify(gotE, nonEmptyLines(string(se)), len(se) > 0 && se[len(se)-1] != '\n'); cl != "" {
 		add("stderr", cl, nonEmptyLines(string(se)), gotE)
+		okE = false
 	}
 	// Output(): the string returned is the content of the plain string logger: every message, one per line
 	content := strLogger.GetLogContent()
@@ -278,10 +282,11 @@ func evalOutput(c seamCase, s []byte) []viol {
 			outO = append(outO, l)
 		}
 	}
-	if cl := classify(outO, nonEmptyLines(string(so)), len(so) > 0 && so[len(so)-1] != '\n'); cl != "" {
+	// (evaluated only when the messages of that stream were right: otherwise it is the same failure seen twice)
+	if cl := classify(outO, nonEmptyLines(string(so)), len(so) > 0 && so[len(so)-1] != '\n'); cl != "" && okO {
 		add("stdout", "output-string:"+cl, nonEmptyLines(string(so)), outO)
 	}
-	if cl := classify(outE, nonEmptyLines(string(se)), len(se) > 0 && se[len(se)-1] != '\n'); cl != "" {
+	if cl := classify(outE, nonEmptyLines(string(se)), len(se) > 0 && se[len(se)-1] != '\n'); cl != "" && okE {
 		add("stderr", "output-string:"+cl, nonEmptyLines(string(se)), outE)
 	}
 	return vs
